@@ -126,6 +126,8 @@ func (server *Server) pop(conn *redis.Conn, key string, count int, isLPop bool) 
 	if err != nil {
 		return nil, err
 	}
+	db.Lock()
+	defer db.Unlock()
 
 	if !db.HasRecord(key) {
 		return redis.NewNilMessage(), nil
@@ -173,6 +175,8 @@ func (server *Server) push(conn *redis.Conn, key string, elems []string, opt red
 	if err != nil {
 		return nil, err
 	}
+	db.Lock()
+	defer db.Unlock()
 
 	if opt.X {
 		if !db.HasRecord(key) {
@@ -216,6 +220,8 @@ func (server *Server) LRange(conn *redis.Conn, key string, start int, stop int) 
 	if err != nil {
 		return nil, err
 	}
+	db.Lock()
+	defer db.Unlock()
 	if !db.HasRecord(key) {
 		return redis.NewArrayMessage(), nil
 	}
@@ -240,6 +246,8 @@ func (server *Server) LIndex(conn *redis.Conn, key string, idx int) (*redis.Mess
 	if err != nil {
 		return nil, err
 	}
+	db.Lock()
+	defer db.Unlock()
 	if !db.HasRecord(key) {
 		return redis.NewNilMessage(), nil
 	}
@@ -262,6 +270,8 @@ func (server *Server) LLen(conn *redis.Conn, key string) (*redis.Message, error)
 	if err != nil {
 		return nil, err
 	}
+	db.Lock()
+	defer db.Unlock()
 	if !db.HasRecord(key) {
 		return redis.NewIntegerMessage(0), nil
 	}
